@@ -864,8 +864,55 @@ func (g *Gen) add(op string, unary bool, ka, kb *Kind, shape, place string, c *C
 	default:
 		f.Set = g.oneSet(ka)
 	}
+	f.KnownKey = findingClass(f)
 	g.fns = append(g.fns, f)
 	return f
+}
+
+// findingClass: SYNTACTIC classes of function literals on which gomacro is known to disagree with compiled Go (genuine
+// defects found by this harness).  The class only depends on (operator, kind, shape, constant) - never on an observed
+// result.  The functions are still compiled, called and compared like all others; their failures are reported under
+// the fixed class key (first failing case as the witness, number of failing cases in extra.class_failures) so that the
+// key can be listed in known_findings.json and the 50 failure slots of report.json stay free for anything new.
+func findingClass(f *Fn) string {
+	if f.C == nil {
+		return ""
+	}
+	cis := func(texts ...string) bool {
+		for _, t := range texts {
+			if f.C.Text == f.cKind().Name+"("+t+")" {
+				return true
+			}
+		}
+		return false
+	}
+	fl := f.KA.Cat == cFloat || f.KA.Cat == cComplex
+	switch {
+	case f.Op == "/" && f.Shape == "VC" && f.KA.Cat == cUint && f.KA.Bits == 64 && f.C.HasV && f.C.V.U == ^uint64(0):
+		// quoPow2: isLiteralNumber(y, -1) is true for the maximum uint64 -> x / MaxUint64 compiled as -x
+		return "finding:quo-const-maxuint64"
+	case f.Op == "/" && f.Shape == "VC" && fl && cis("0"):
+		// "division by zero" compile error for a float / complex constant zero divisor (Go: +-Inf / NaN at run time)
+		return "finding:float-quo-const-zero"
+	case strings.Contains(f.C.Text, "1.0000000596046447763"):
+		// typed float32 constant rounded through float64 first (double rounding)
+		return "finding:float32-const-double-rounding"
+	case f.KA.Cat == cFloat && (f.Op == "*" || f.Op == "+") && cis("0"):
+		// x*0 -> 0 (Go: NaN for NaN/Inf, -0 for negative x), 0+x -> x (Go: +0 for x = -0)
+		return "finding:float-const-shortcut"
+	case f.KA.Cat == cComplex && ((f.Op == "*" && cis("0", "1", "-1")) || (f.Op == "/" && cis("1", "-1")) || (f.Op == "+" && cis("0"))):
+		// same shortcuts on complex operands: Go evaluates the full complex product / quotient (NaN from Inf*0, signs of zero)
+		return "finding:complex-const-shortcut"
+	}
+	return ""
+}
+
+// cKind: kind of the constant operand
+func (f *Fn) cKind() *Kind {
+	if f.Shape == "CV" {
+		return f.KA
+	}
+	return f.KB
 }
 
 // placesFor: VV and unary use every placement; the constant shapes rotate through the placements in the quick tier
@@ -1050,10 +1097,8 @@ func (g *Gen) enumerate() {
 				}
 				for _, c := range vc {
 					if op == "/" && strings.HasSuffix(c.Text, "(0)") {
-						// recorded finding corpus:float-quo-const-zero (gomacro rejects a constant zero float/complex
-						// divisor, Go accepts it): the class is kept out of the generator and replayed under its own key
-						f := g.add(op, false, k, k, "VC", "local", c)
-						f.KnownKey = "corpus:float-quo-const-zero"
+						// class finding:float-quo-const-zero: one function per kind is enough
+						g.add(op, false, k, k, "VC", "local", c)
 						continue
 					}
 					for _, p := range g.placesFor(false) {
@@ -1634,12 +1679,19 @@ func main() {
 	// ---- compare
 	nfail := 0
 	var allf *os.File
+	classFail := map[string]int{}
 	os.Remove(a.Path("failures_all.jsonl"))
 	fail := func(f *Fn, row int, what string, got, want string) {
 		nfail++
 		in := map[string]interface{}{"func": f.Src, "operands": f.operandText(row), "op": f.opText(), "kind": f.kindText(), "shape": f.Shape, "placement": f.Place}
 		fl := vh.Failure{Key: f.Key(row), What: what, Input: in, Got: got, Want: want}
-		rep.Fail(fl)
+		if f.KnownKey != "" {
+			classFail[f.KnownKey]++
+			fl.What += " [class " + f.KnownKey + ": first failing case, see extra.class_failures and failures_all.jsonl]"
+		}
+		if f.KnownKey == "" || classFail[f.KnownKey] == 1 {
+			rep.Fail(fl)
+		}
 		if nfail <= 20000 { // report.json keeps the first 50; every failure is listed in failures_all.jsonl
 			if allf == nil {
 				allf, _ = os.Create(a.Path("failures_all.jsonl"))
@@ -1789,6 +1841,7 @@ func main() {
 	rep.Extra["functions_expected_compile_error"] = nce
 	rep.Extra["operand_sets"] = len(g.allSets)
 	rep.Extra["failures_total"] = nfail
+	rep.Extra["class_failures"] = classFail
 	rep.Extra["total_seconds"] = time.Since(tStart).Seconds()
 	for _, f := range g.fns {
 		if len(rep.Samples) >= 4 {
